@@ -172,7 +172,11 @@ def _W2(parts):
 
 def _BYW(parts):
     """thorough partitions, one per parent width (a partition must stay below ~600 paths)"""
-    return [(f"{t}_w{w}", f"w1 == {w} and " + c) for t, c in parts for w in (1, 2, 3)]
+    out = [(f"{t}_w{w}", f"w1 == {w} and " + c) for t, c in parts for w in (1, 2)]
+    # width 3 holds most of the paths: split it once more by the first bound
+    out += [(f"{t}_w3_{tag}", f"w1 == 3 and {cl} and " + c) for t, c in parts
+            for tag, cl in (("an", "a1 < 0"), ("ap", "0 <= a1 < 99"), ("a_", "a1 == 99"))]
+    return out
 
 
 def _parts(sels, steps1):
